@@ -454,3 +454,17 @@ func c05LargeProg(r *RNG) c05Prog {
 	return c05Prog{src: sb.String(), g: []string{fmt.Sprint(r.Intn(1 << 30))}, e: []string{fmt.Sprint(r.Intn(1 << 30))},
 		feat: map[string]int{"large-ids": 1, "array-update": n}, nstmts: n + 4}
 }
+
+// c05BigProg: a single uint256 multiplication / division / remainder: the
+// step circuit has far more than 65536 wires while the program uses only a
+// few hundred permanent wire ids.
+func c05BigProg(r *RNG, k int) c05Prog {
+	op := []string{"*", "/", "%"}[k%3]
+	src := fmt.Sprintf("package main\n\nfunc main(a, b uint256) uint256 {\n\treturn a %s b\n}\n", op)
+	b := c05RandHex(r, 256)
+	if op != "*" {
+		b = c05RandHex(r, 100) // a divisor well below the dividend
+	}
+	return c05Prog{src: src, g: []string{c05RandHex(r, 256)}, e: []string{b},
+		feat: map[string]int{"big-circuit": 1}, nstmts: 1}
+}
